@@ -182,7 +182,7 @@ func lexClasses() []lexClass {
 	opAnn := mop("Sent", tString)
 	opAnn.Ann = []idl.Annotation{{Name: "deprecated", Value: "use Sent2"}}
 	add(lexClass{Class: "operation_annotation_after_base_type", Pinned: "fails",
-		Rule: "documented operation syntax `Name: type (annotations)`: the annotations belong to the operation whatever the type (on the pinned tree they are swallowed as type annotations when the type is a base or container type)",
+		Rule: "the grammar's Operation rule is `name ':' FieldType TypeAnnotations?`: annotations written after the type belong to the operation whatever the type (on the pinned tree FieldType swallows them as type annotations when the type is a base or container type; ambiguity inherited from Thrift's `FieldType TypeAnnotations`, arguably by design)",
 		Variants: []lexVariant{one("string", "scope Events {\n  Sent: string (deprecated = \"use Sent2\")\n}\n",
 			mscope("Events", "", opAnn))}})
 
@@ -389,6 +389,19 @@ service S {
 				Model: []*idl.File{mfile("inc", mstruct("B")), rootSub}},
 			{Name: "thrift-extension", Files: [][2]string{{"base.thrift", "struct B {\n}\n"}, {"w.frugal", "include 'base.thrift'\n\nstruct A {\n  1: base.B b\n}\n"}},
 				Model: []*idl.File{baseThrift, rootThrift}},
+		}})
+
+	rootDeep := mfile("w", mstruct("A", mfield(1, idl.T("deep.B"), "b"), mfield(2, idl.T("near.C"), "c")))
+	rootDeep.Includes = []*idl.Include{{Path: "a/b/deep.frugal"}, {Path: "./near.frugal"}}
+	out[len(out)-1].Variants = append(out[len(out)-1].Variants, lexVariant{Name: "nested-and-dot-slash",
+		Files: [][2]string{{"a/b/deep.frugal", "struct B {\n}\n"}, {"near.frugal", "struct C {\n}\n"}, {"w.frugal", "include \"a/b/deep.frugal\"\ninclude \"./near.frugal\"\n\nstruct A {\n  1: deep.B b,\n  2: near.C c\n}\n"}},
+		Model: []*idl.File{mfile("deep", mstruct("B")), mfile("near", mstruct("C")), rootDeep}})
+
+	unionDecl := &idl.Decl{Struct: &idl.Struct{Kind: idl.KindUnion, Name: "U", Fields: []*idl.Field{mfield(1, tString, "a"), mfield(2, tI32, "b"), mfield(3, tBool, "c")}}}
+	add(lexClass{Class: "union_members_are_optional", Pinned: "passes",
+		Rule: "every member of a union is optional, whatever requiredness keyword is written (Thrift: 'required field of union set to optional')",
+		Variants: []lexVariant{
+			one("keywords", "union U {\n  1: required string a,\n  2: optional i32 b,\n  3: bool c\n}\n", unionDecl),
 		}})
 
 	td := idl.T("double")
